@@ -489,6 +489,19 @@ func c07(c *ctx) {
 							sc.DiscardInvalid = true
 							t.run(sc)
 						}
+						// fragments of one message that differ in whether they are masked, read by a reader that does
+						// not enforce the mask rule (SkipHeaderCheck): each is unmasked with its own key or not at
+						// all, and the text is judged as a whole
+						if v.Entry == "reader" && len(parts) > 1 && (c.thorough || rot%3 == 1 || !utf8.Valid(s.b)) {
+							fm := append([]fspec(nil), fs...)
+							for fi := range fm {
+								fm[fi].Unmask = 1 + (fi+rot)%2
+							}
+							sc := mkScenario("mixmask"+key[4:], side, v, fm, rchunks[(rot+3)%len(rchunks)], rbufs[(rot/5)%len(rbufs)])
+							sc.Skip = true
+							sc.build(fm, len(key))
+							t.run(sc)
+						}
 						// an OnContinuation callback that takes the first byte(s) of a continuation frame for
 						// itself: they are part of the message, and of what the UTF-8 check has to see
 						if v.Entry == "reader" && len(parts) > 1 && (c.thorough || rot%3 == 0 || len(parts[1]) > 0 && parts[1][0] >= 0x80) {
@@ -762,6 +775,12 @@ func c13r(c *ctx) {
 							sc.Ext, sc.Extended = true, extended
 							sc.SkipEmptyCtl = rot%2 == 0
 							t.run(sc)
+							// a new extension object after every message (same list length)
+							if c.thorough || rsv >= 4 || second == 4 || rot%4 == 2 {
+								sw := mkScenario("rsvswap"+key[3:], side, rvariant{"reader", nil, -1, true}, fs, rchunks[(rot+2)%len(rchunks)], rbufs[(rot/5)%len(rbufs)])
+								sw.Ext, sw.Extended, sw.SwapExt = true, extended, true
+								t.run(sw)
+							}
 							// SkipHeaderCheck turns off the header rules, not the extension's own bit check
 							if c.thorough || rsv >= 4 || rot%4 == 1 {
 								sk := mkScenario("rsvskip"+key[3:], side, v, fs, rchunks[(rot+1)%len(rchunks)], rbufs[(rot/5)%len(rbufs)])
